@@ -4,6 +4,7 @@ import (
 	"fmt"
 	"os"
 	"sort"
+	"strings"
 	"time"
 
 	"verif/core"
@@ -88,4 +89,68 @@ func Product(cfgs []Scenario, menuFor func(cfg Scenario) []Rule, d int) []*Scena
 	// fewest deviations first: a budget cut keeps the lower bounds complete
 	sort.SliceStable(out, func(i, j int) bool { return len(out[i].Rules) < len(out[j].Rules) })
 	return out
+}
+
+// DeviationScenarios implements delay-bounded scheduling on top of the default
+// schedule: each base is first run in "decisions" mode to learn how many
+// alternatives every scheduling decision has; then every set of <= d (decision,
+// alternative) deviations becomes a scenario (d = 1 or 2).
+func DeviationScenarios(bases []Scenario, d int, workBase string, maxPairs int) ([]*Scenario, map[string]int) {
+	var refs []*Scenario
+	for i := range bases {
+		b := bases[i]
+		b.Mode = "decisions"
+		b.ID = i
+		refs = append(refs, &b)
+	}
+	alts := map[int][]int{}
+	RunPool(refs, PoolOpts{WorkBase: workBase}, func(o CaseOutcome) {
+		if o.Res == nil {
+			return
+		}
+		for _, f := range strings.Split(o.Res.Extra["decisions"], ",") {
+			n := 0
+			fmt.Sscanf(f, "%d", &n)
+			alts[o.Sc.ID] = append(alts[o.Sc.ID], n)
+		}
+	})
+	var out []*Scenario
+	info := map[string]int{}
+	for bi, b := range bases {
+		a := alts[bi]
+		info[fmt.Sprintf("base%d_decisions", bi)] = len(a)
+		type dv struct{ k, alt int }
+		var singles []dv
+		for k, n := range a {
+			for x := 0; x < n; x++ {
+				singles = append(singles, dv{k, x})
+			}
+		}
+		info[fmt.Sprintf("base%d_single_deviations", bi)] = len(singles)
+		mk := func(ds ...dv) *Scenario {
+			sc := b
+			sc.Rules = append([]Rule{}, b.Rules...)
+			for _, x := range ds {
+				sc.Rules = append(sc.Rules, Rule{Kind: "dev", K: x.k, Delay: x.alt})
+			}
+			return &sc
+		}
+		for _, s := range singles {
+			out = append(out, mk(s))
+		}
+		if d >= 2 {
+			pairs := 0
+			for i := 0; i < len(singles) && pairs < maxPairs; i++ {
+				for j := i + 1; j < len(singles) && pairs < maxPairs; j++ {
+					if singles[i].k == singles[j].k {
+						continue
+					}
+					out = append(out, mk(singles[i], singles[j]))
+					pairs++
+				}
+			}
+			info[fmt.Sprintf("base%d_pair_deviations", bi)] = pairs
+		}
+	}
+	return out, info
 }
